@@ -18,6 +18,15 @@ def world_candidates(sc):
         c = _clone(sc)
         del c["faults"][i]
         yield c
+    if sc.get("second_life"):
+        c = _clone(sc)
+        del c["second_life"]
+        yield c
+        for k in ("network", "queue", "evs", "algo"):
+            if sc["second_life"].get(k):
+                c = _clone(sc)
+                c["second_life"][k] = False
+                yield c
     for i in range(len(sc.get("reconfig", []))):
         c = _clone(sc)
         del c["reconfig"][i]
